@@ -1,11 +1,22 @@
 package main
 
-// C03: exact primitives are Euclidean signed distances; compositions are 1-Lipschitz.
+// C03: exact primitives are Euclidean signed distances; every shape built from them with the listed
+// combinators is 1-Lipschitz.
+//   (a) exact-specification oracle for the primitives (oracle.go, prims.go; Coq side coq/Sdf/C03Corr.v)
+//   (b) Lipschitz pair search on random expression trees of the claimed class (lip.go)
+//   (c) corpus: witnesses of the refuted statements (known findings), replayed first
 
 import (
+	"encoding/json"
 	"fmt"
+	"math"
+	"os"
+	"path/filepath"
 	"strings"
 
+	"github.com/deadsy/sdfx/sdf"
+	v2 "github.com/deadsy/sdfx/vec/v2"
+	v3 "github.com/deadsy/sdfx/vec/v3"
 	"verifharness/exprgen"
 	. "verifharness/kit"
 	"verifharness/shapes"
@@ -13,7 +24,9 @@ import (
 
 func main() { Main("C03", check, exprgen.Gen) }
 
-// the combinators the property lists (RotateCopy is claimed for symmetric operands only: corpus)
+const imp = "From Sdfx Require Import Sdf.C03Corr.\nOpen Scope float_scope."
+
+// the combinators the property lists (RotateCopy is claimed for mirror-symmetric operands only: corpus)
 var listed = map[string]bool{
 	"Circle": true, "Box2D": true, "Line2D": true, "Offset2": true, "Intersect2": true, "Difference2": true,
 	"Cut2": true, "Transform2": true, "ScaleUniform2": true, "Array2": true, "RotateUnion2": true,
@@ -24,58 +37,6 @@ var listed = map[string]bool{
 	"Offset3": true, "Shell3": true,
 }
 
-// inClass: the generated tree lies in the class C03_lipschitz is stated for
-func inClass(cl shapes.Class, coq string) bool {
-	return cl.Lipschitz && !strings.Contains(coq, "MinRound") && !strings.Contains(coq, "MinChamfer")
-}
-
-func check(c *Ctx, r *Report) error {
-	rng := NewRng(mixSeed(c.Seed))
-	g := &shapes.Gen{R: rng, Allow: listed}
-	n3 := TierN(c.Tier, 300, 6000, 1500)
-	n2 := TierN(c.Tier, 200, 4000, 1000)
-	npairs := TierN(c.Tier, 1500, 4000, 6000)
-	maxr := 0.0
-	for k := 0; k < n3; k++ {
-		t := g.Gen3(k%4 + 1)
-		if !inClass(t.Cl, t.Coq) {
-			continue
-		}
-		fd := field3(t.Go, t.Desc)
-		hit, mr := searchLip(rng, fd, npairs)
-		if mr > maxr {
-			maxr = mr
-		}
-		key := "lip3:" + t.Desc
-		r.Case("lip3/depth<="+fmt.Sprint(k%4+1), key, len(t.Cl.Ctors) >= 2)
-		if hit != nil {
-			r.Violate(key+"@"+pstr(hit.p)+"|"+pstr(hit.q),
-				fmt.Sprintf("|f(p)-f(q)| = %g > |p-q| = %g (ratio %g): f(p)=%g f(q)=%g", abs(hit.fp-hit.fq), dist(hit.p, hit.q), hit.ratio, hit.fp, hit.fq),
-				map[string]interface{}{"tree": t.Desc, "coq": t.Coq, "p": hit.p, "q": hit.q})
-		}
-	}
-	for k := 0; k < n2; k++ {
-		t := g.Gen2(k%4 + 1)
-		if !inClass(t.Cl, t.Coq) {
-			continue
-		}
-		fd := field2(t.Go, t.Desc)
-		hit, mr := searchLip(rng, fd, npairs)
-		if mr > maxr {
-			maxr = mr
-		}
-		key := "lip2:" + t.Desc
-		r.Case("lip2/depth<="+fmt.Sprint(k%4+1), key, len(t.Cl.Ctors) >= 2)
-		if hit != nil {
-			r.Violate(key+"@"+pstr(hit.p)+"|"+pstr(hit.q),
-				fmt.Sprintf("|f(p)-f(q)| = %g > |p-q| = %g (ratio %g): f(p)=%g f(q)=%g", abs(hit.fp-hit.fq), dist(hit.p, hit.q), hit.ratio, hit.fp, hit.fq),
-				map[string]interface{}{"tree": t.Desc, "coq": t.Coq, "p": hit.p, "q": hit.q})
-		}
-	}
-	r.Coverage["max_lipschitz_ratio_seen"] = maxr
-	return nil
-}
-
 // mixSeed spreads consecutive seeds (kit.NewRng(s) and NewRng(s+1) are the same stream shifted by one draw)
 func mixSeed(s uint64) uint64 {
 	z := s*0xD1342543DE82EF95 + 0x632BE59BD9B4E019
@@ -84,9 +45,349 @@ func mixSeed(s uint64) uint64 {
 	return z ^ (z >> 32)
 }
 
-func abs(x float64) float64 {
-	if x < 0 {
-		return -x
+// hasInterior looks for a point of the operand's box with a negative value
+func hasInterior(rng *Rng, s sdf.SDF2) bool {
+	bb := s.BoundingBox()
+	for _, c := range []float64{bb.Min.X, bb.Min.Y, bb.Max.X, bb.Max.Y} {
+		if math.IsNaN(c) || math.IsInf(c, 0) {
+			return false
+		}
 	}
-	return x
+	clampP := func(p v2.Vec) v2.Vec {
+		return v2.Vec{X: math.Max(bb.Min.X, math.Min(bb.Max.X, p.X)), Y: math.Max(bb.Min.Y, math.Min(bb.Max.Y, p.Y))}
+	}
+	ext := math.Max(bb.Max.X-bb.Min.X, bb.Max.Y-bb.Min.Y)
+	for i := 0; i < 48; i++ {
+		p := v2.Vec{X: rng.Uniform(bb.Min.X, bb.Max.X), Y: rng.Uniform(bb.Min.Y, bb.Max.Y)}
+		if i == 0 {
+			p = bb.Center()
+		}
+		for it := 0; it < 12; it++ {
+			f := s.Evaluate(p)
+			if f < 0 {
+				return true
+			}
+			h := 1e-6 * (ext + 1)
+			gx := (s.Evaluate(v2.Vec{X: p.X + h, Y: p.Y}) - s.Evaluate(v2.Vec{X: p.X - h, Y: p.Y})) / (2 * h)
+			gy := (s.Evaluate(v2.Vec{X: p.X, Y: p.Y + h}) - s.Evaluate(v2.Vec{X: p.X, Y: p.Y - h})) / (2 * h)
+			g2 := gx*gx + gy*gy
+			if g2 < 1e-12 || math.IsNaN(g2) {
+				break
+			}
+			q := clampP(v2.Vec{X: p.X - 1.05*f*gx/g2, Y: p.Y - 1.05*f*gy/g2})
+			if q == p {
+				break
+			}
+			p = q
+		}
+	}
+	return false
+}
+
+// pruneSound: every operand of every Union2D with the plain minimum meets the hypotheses of the box
+// pruning (value >= distance to its own box, a point of its solid inside its box); lipwf requires it
+func pruneSound(rng *Rng, n interface{}) bool {
+	switch t := n.(type) {
+	case *shapes.N2:
+		if strings.HasPrefix(t.Desc, "Union2[MinDef](") {
+			for _, k := range t.Kids {
+				kk := k.(*shapes.N2)
+				if !(kk.Cl.Lb || kk.Cl.LbInf) || !hasInterior(rng, kk.Go) {
+					return false
+				}
+			}
+		}
+		for _, k := range t.Kids {
+			if !pruneSound(rng, k) {
+				return false
+			}
+		}
+	case *shapes.N3:
+		for _, k := range t.Kids {
+			if !pruneSound(rng, k) {
+				return false
+			}
+		}
+	}
+	return true
+}
+
+// inClass: the generated tree lies in the class C03_lipschitz is stated for
+func inClass(cl shapes.Class, coq string) bool {
+	return cl.Lipschitz && !strings.Contains(coq, "MinRound") && !strings.Contains(coq, "MinChamfer")
+}
+
+type corpusT struct {
+	Pairs []struct {
+		Witness string    `json:"witness"`
+		P       []float64 `json:"p"`
+		Q       []float64 `json:"q"`
+	} `json:"lipschitz_pairs"`
+	Offset []struct {
+		Witness string    `json:"witness"`
+		C       []float64 `json:"c"`
+		Radius  float64   `json:"radius"`
+	} `json:"offset_exactness"`
+	Exact []struct {
+		Kind string    `json:"kind"`
+		A    []float64 `json:"a"`
+		Len  float64   `json:"len"`
+		P    []float64 `json:"p"`
+	} `json:"exact_points"`
+}
+
+// witness trees of the refuted statements
+func witness(name string) (*field, bool) {
+	c2, _ := sdf.Circle2D(2)
+	s2, _ := sdf.Sphere3D(2)
+	switch name {
+	case "rotatecopy2-halfdisc": // the Coq witness of rotatecopy_asymmetric_refuted
+		return field2(sdf.RotateCopy2D(sdf.Cut2D(c2, v2.Vec{}, v2.Vec{X: 1}), 2), "RotateCopy2(Cut2(Circle(2),{0 0},{1 0}),2)"), true
+	case "rotatecopy3-halfball":
+		return field3(sdf.RotateCopy3D(sdf.Cut3D(s2, v3.Vec{}, v3.Vec{Y: -1}), 2), "RotateCopy3(Cut3(Sphere(2),{0 0 0},{0 -1 0}),2)"), true
+	case "rotatecopy2-symmetric": // claimed class: operand mirror-symmetric about the x axis
+		b := sdf.Transform2D(sdf.Box2D(v2.Vec{X: 1, Y: 0.5}, 0.125), sdf.Translate2d(v2.Vec{X: 1.5}))
+		return field2(sdf.RotateCopy2D(b, 5), "RotateCopy2(Transform2(Box2D({1 0.5},0.125)@(1.5,0)),5)"), true
+	case "rotatecopy3-symmetric":
+		cy, _ := sdf.Cylinder3D(1, 0.25, 0.0625)
+		b := sdf.Transform3D(cy, sdf.Translate3d(v3.Vec{X: 1.25}))
+		return field3(sdf.RotateCopy3D(b, 7), "RotateCopy3(Transform3(Cylinder(1,0.25,0.0625)@(1.25,0,0)),7)"), true
+	case "union2-empty-operand": // box pruning of Union2D over an operand with an empty solid
+		c1, _ := sdf.Circle2D(1)
+		a := sdf.Intersect2D(sdf.Transform2D(c1, sdf.Translate2d(v2.Vec{X: -2})), sdf.Transform2D(c1, sdf.Translate2d(v2.Vec{X: 2})))
+		b := sdf.Transform2D(c1, sdf.Translate2d(v2.Vec{X: -10, Y: 10.5}))
+		return field2(sdf.Union2D(a, b), "Union2[MinDef](Intersect2[MaxDef](Circle(1)@(-2,0),Circle(1)@(2,0)),Circle(1)@(-10,10.5))"), true
+	case "offset-two-boxes": // non-convex exact operand: two walls of a slot of half width 0.5
+		b := sdf.Box2D(v2.Vec{X: 1, Y: 20}, 0)
+		u := sdf.Union2D(sdf.Transform2D(b, sdf.Translate2d(v2.Vec{X: -1})), sdf.Transform2D(b, sdf.Translate2d(v2.Vec{X: 1})))
+		return field2(sdf.Offset2D(u, 0.6), "Offset2(Union2[MinDef](Box2D({1 20},0)@(-1,0),Box2D({1 20},0)@(1,0)),0.6)"), true
+	}
+	return nil, false
+}
+
+func lipKey(fd *field, p, q []float64) string {
+	return fmt.Sprintf("lip%d:%s@%s|%s", fd.dim, fd.desc, pstr(p), pstr(q))
+}
+func lipWhat(h *pairHit) string {
+	return fmt.Sprintf("not 1-Lipschitz: |f(p)-f(q)| = %g > |p-q| = %g (ratio %.6g); f(p)=%.17g f(q)=%.17g",
+		math.Abs(h.fp-h.fq), dist(h.p, h.q), h.ratio, h.fp, h.fq)
+}
+
+func check(c *Ctx, r *Report) error {
+	rng := NewRng(mixSeed(c.Seed))
+	cases := &Cases{Kind: "prim", Imports: imp, Type: "case", Fn: "mismatches", InfoFn: "inexact", PerShard: 250}
+	id := 0
+	regions := map[string]int{}
+
+	// ---- one primitive at one point: Go oracle, and a Coq case when rho is exactly representable
+	onePoint := func(p *prim, ev func(x, y, z float64) float64, q pt, stratum string) {
+		g := ev(q.x, q.y, q.z)
+		s, d2, rhoExact, rhoF, ok := p.spec(q.x, q.y, q.z)
+		if !ok {
+			return
+		}
+		scale := math.Abs(q.x) + math.Abs(q.y) + math.Abs(q.z)
+		for _, a := range p.a {
+			scale += math.Abs(a)
+		}
+		// exact regime: dyadic parameters and point, and the distance is along an axis (no square root of an inexact sum)
+		exact := false
+		if isDyadicPrim(p) && q.x*4096 == math.Floor(q.x*4096) && q.y*4096 == math.Floor(q.y*4096) && q.z*4096 == math.Floor(q.z*4096) && scale < 1e5 {
+			exact = exactRegime(p, q, rhoExact)
+		}
+		key := fmt.Sprintf("exact:%s@(%.17g,%.17g,%.17g)", p.desc(), q.x, q.y, q.z)
+		r.Case("exact/"+p.kind+"/"+stratum, key, true)
+		regions[p.kind+"/"+q.stratum]++
+		v := judge(s, d2, p.round(), g, scale, exact)
+		if !v.ok {
+			r.Violate(key, v.what, map[string]interface{}{"primitive": p.kind, "params": p.a, "point": []float64{q.x, q.y, q.z}, "value": g, "exact_regime": exact})
+		}
+		if rhoExact {
+			id++
+			cases.Add(fmt.Sprintf("(%d%%N, %s, (%s,%s,%s), %s, %s, %s, %s)", id, p.coq(), CF(q.x), CF(q.y), CF(q.z), CF(rhoF), CF(g), CB(exact), CF(scale)))
+			if id%211 == 0 {
+				r.Sample(map[string]interface{}{"id": id, "primitive": p.desc(), "point": []float64{q.x, q.y, q.z}, "value": g, "stratum": q.stratum})
+			}
+		}
+	}
+
+	// C03_FIND=<witness>: print a violating pair of a witness tree (used once to fill the corpus)
+	if w := os.Getenv("C03_FIND"); w != "" {
+		if fd, ok := witness(w); ok {
+			hit, mr := searchLip(rng, fd, 400000)
+			if hit != nil {
+				b, _ := json.Marshal(map[string]interface{}{"witness": w, "p": hit.p, "q": hit.q})
+				fmt.Println(string(b), lipWhat(hit))
+			} else {
+				fmt.Println("no violating pair; max ratio", mr)
+			}
+		}
+	}
+	// ---- corpus first
+	var cp corpusT
+	if b, err := os.ReadFile(filepath.Join(c.Verif, "corpus", "C03.json")); err == nil {
+		if err := json.Unmarshal(b, &cp); err != nil {
+			return err
+		}
+	}
+	for _, e := range cp.Exact {
+		p := &prim{kind: e.Kind, a: e.A, len: e.Len}
+		ev, err := p.build()
+		if err != nil {
+			return fmt.Errorf("corpus primitive %s: %v", p.desc(), err)
+		}
+		q := pt{e.P[0], e.P[1], 0, "corpus"}
+		if len(e.P) > 2 {
+			q.z = e.P[2]
+		}
+		onePoint(p, ev, q, "corpus")
+	}
+	for _, e := range cp.Pairs {
+		fd, ok := witness(e.Witness)
+		if !ok {
+			return fmt.Errorf("corpus: unknown witness %q", e.Witness)
+		}
+		key := lipKey(fd, e.P, e.Q)
+		r.Case("corpus/pair/"+e.Witness, key, true)
+		ex, ratio, fp, fq := fd.excess(e.P, e.Q, fd.ext())
+		if ex > 0 {
+			r.Violate(key, lipWhat(&pairHit{e.P, e.Q, fp, fq, ratio, ex}), map[string]interface{}{"witness": e.Witness, "tree": fd.desc, "p": e.P, "q": e.Q})
+		}
+	}
+	for _, e := range cp.Offset {
+		fd, ok := witness(e.Witness)
+		if !ok {
+			return fmt.Errorf("corpus: unknown witness %q", e.Witness)
+		}
+		key := fmt.Sprintf("offset-exact:%s@%s", fd.desc, pstr(e.C))
+		r.Case("corpus/offset/"+e.Witness, key, true)
+		// exactness at c: some point with the opposite sign (or zero) within |f(c)| * (1 + 1e-6); searched up to `radius`
+		fc := fd.f(e.C)
+		nearest := math.Inf(1)
+		for k := 0; k < 200000; k++ {
+			rr := e.Radius * math.Sqrt(rng.Float())
+			a := rng.Uniform(0, 2*math.Pi)
+			q := []float64{e.C[0] + rr*math.Cos(a), e.C[1] + rr*math.Sin(a)}
+			if fd.f(q)*fc <= 0 && rr < nearest {
+				nearest = rr
+			}
+		}
+		if nearest > math.Abs(fc)*(1+1e-6)+1e-9 {
+			r.Violate(key, fmt.Sprintf("not the Euclidean distance: Evaluate = %.17g at %v but no point of the surface within %g (the nearest sign change found within radius %g is at %g)",
+				fc, e.C, math.Abs(fc)*1.000001, e.Radius, nearest), map[string]interface{}{"witness": e.Witness, "tree": fd.desc, "c": e.C})
+		}
+	}
+	// the claimed side of RotateCopy: symmetric operands
+	for _, w := range []string{"rotatecopy2-symmetric", "rotatecopy3-symmetric"} {
+		fd, _ := witness(w)
+		hit, _ := searchLip(rng, fd, TierN(c.Tier, 6000, 60000, 20000))
+		r.Case("lip/rotatecopy-symmetric", "lip:"+fd.desc, true)
+		if hit != nil {
+			r.Violate(lipKey(fd, hit.p, hit.q), lipWhat(hit), map[string]interface{}{"tree": fd.desc, "p": hit.p, "q": hit.q})
+		}
+	}
+
+	// ---- (a) primitives
+	nprims := TierN(c.Tier, 14, 120, 40)
+	npts := TierN(c.Tier, 34, 64, 48)
+	for _, p := range genPrims(rng, nprims) {
+		ev, err := p.build()
+		if err != nil {
+			continue // rejected parameter vector (the constructors validate): not a case
+		}
+		for _, q := range genPoints(rng, p, npts) {
+			onePoint(p, ev, q, "generated")
+		}
+	}
+	if err := cases.Write(c.Out); err != nil {
+		return err
+	}
+
+	// ---- (b) Lipschitz pair search on random trees of the claimed class
+	g := &shapes.Gen{R: rng, Allow: listed}
+	n3 := TierN(c.Tier, 260, 6000, 1500)
+	n2 := TierN(c.Tier, 200, 4000, 1000)
+	npairs := TierN(c.Tier, 1500, 4000, 6000)
+	maxr := 0.0
+	ctors := map[string]int{}
+	skipped := map[string]int{}
+	run := func(fd *field, cl shapes.Class, coq string, stratum string, tree interface{}) {
+		if !inClass(cl, coq) {
+			skipped["blend-or-unlisted"]++
+			return
+		}
+		if !pruneSound(rng, tree) {
+			skipped["union2-pruning-hypotheses"]++
+			return
+		}
+		hit, mr := searchLip(rng, fd, npairs)
+		if mr > maxr {
+			maxr = mr
+		}
+		for k, v := range cl.Ctors {
+			ctors[k] += v
+		}
+		r.Case(stratum, fmt.Sprintf("lip%d:%s", fd.dim, fd.desc), len(cl.Ctors) >= 2)
+		if hit != nil {
+			r.Violate(lipKey(fd, hit.p, hit.q), lipWhat(hit), map[string]interface{}{"tree": fd.desc, "coq": coq, "p": hit.p, "q": hit.q})
+		}
+	}
+	for k := 0; k < n3; k++ {
+		t := g.Gen3(k%4 + 1)
+		run(field3(t.Go, t.Desc), t.Cl, t.Coq, "lip3/depth<="+fmt.Sprint(k%4+1), t)
+	}
+	for k := 0; k < n2; k++ {
+		t := g.Gen2(k%4 + 1)
+		run(field2(t.Go, t.Desc), t.Cl, t.Coq, "lip2/depth<="+fmt.Sprint(k%4+1), t)
+	}
+	r.Coverage["max_lipschitz_ratio_seen"] = maxr
+	r.Coverage["constructor_histogram"] = ctors
+	r.Coverage["trees_outside_claimed_class"] = skipped
+	r.Coverage["primitive_regions"] = regions
+	r.Coverage["coq_cases"] = cases.Len()
+	r.Rule = "primitives: parameter vectors in a dyadic-exact and a random regime (rounding 0 / 2^-20 / half / admissible maximum, radius 0, length 0, capsule, pointed cones, rational (Pythagorean) and irrational cone slopes) x points placed by construction in every branch region (27 box regions, the cone's above/below/inside/slope/rim regions, medial axes, rotation axis, exactly on faces/planes/vertices, far away); each Evaluate compared with an exact rational specification in Go (all points) and in Coq at QOps together with the FOps model (points whose rho is exactly representable). Lipschitz: random trees (depth <= 4) over the listed combinators, " + fmt.Sprint(npairs) + " probe pairs each (segments, near-coincident pairs, pairs straddling coordinate planes, box faces, the rotation axis and sector boundaries), violating pairs bisected. non-trivial = every primitive case; trees with >= 2 distinct constructors. distinct by primitive+point / tree description."
+	r.Trusted = append(r.Trusted,
+		"hand model coq/Sdf/Shape.v tied by differential execution at FOps (here on region-targeted points, in C01 on random trees); matrix code translated from the Go AST by harness/exprgen on every run",
+		"the Go re-implementation of the specification (cmd/c03/oracle.go) is only used for points whose rho is not a float; all other points are judged by coqc")
+	r.Assumptions = append(r.Assumptions,
+		"theorems are over the reals; float64 rounding is measured (tolerance 1e-12 of the scale; exact equality in the dyadic regime along axes), not proved",
+		"Union2D with the plain minimum is claimed 1-Lipschitz only under the hypotheses of its box pruning (operand values at least the distance to their own boxes, operands non-empty): generated trees violating them are not searched (counted in trees_outside_claimed_class)",
+		"polygon exactness belongs to C04; that the crossing-number interior is the topological interior (Jordan) is not proved")
+	return nil
+}
+
+// exactRegime: the Go result must equal the rational specification exactly
+func exactRegime(p *prim, q pt, rhoExact bool) bool {
+	pos := func(ds ...float64) int {
+		n := 0
+		for _, d := range ds {
+			if d > 0 {
+				n++
+			}
+		}
+		return n
+	}
+	switch p.kind {
+	case "circle":
+		_, _, ex := rhoRat(q.x, q.y)
+		return ex
+	case "sphere":
+		n := math.Sqrt(q.x*q.x + q.y*q.y + q.z*q.z)
+		return rsq(rat(n)).Cmp(radd(radd(rsq(rat(q.x)), rsq(rat(q.y))), rsq(rat(q.z)))) == 0
+	case "box2":
+		return pos(math.Abs(q.x)-(p.a[0]/2-p.a[2]), math.Abs(q.y)-(p.a[1]/2-p.a[2])) <= 1
+	case "box3":
+		return pos(math.Abs(q.x)-(p.a[0]/2-p.a[3]), math.Abs(q.y)-(p.a[1]/2-p.a[3]), math.Abs(q.z)-(p.a[2]/2-p.a[3])) <= 1
+	case "line2":
+		return math.Abs(q.x) <= p.a[0]/2 || q.y == 0
+	case "cyl":
+		rho := math.Sqrt(q.x*q.x + q.y*q.y)
+		return rhoExact && pos(rho-(p.a[1]-p.a[2]), math.Abs(q.z)-(p.a[0]/2-p.a[2])) <= 1
+	case "cone":
+		// only the cap regions of the unrounded cone are free of normalised quantities
+		rho := math.Sqrt(q.x*q.x + q.y*q.y)
+		sh := p.a[0] / 2
+		return rhoExact && p.a[3] == 0 && ((q.z >= sh && rho <= p.a[2]) || (q.z <= -sh && rho <= p.a[1]))
+	}
+	return false
 }
